@@ -18,14 +18,23 @@ def c17_stats(cases, model):
         for i in c.get("impl") or []:
             if i.startswith("delayed "):
                 delays[i.split()[1]] += 1
-    return dict(verdicts=_verdict_stats(cases, model), ops=dict(ops), impl_outcomes=dict(kinds),
+    par = collections.Counter()
+    for c in cases:
+        for o, i in zip(c["ops"], c.get("impl") or []):
+            f, g = o.split(), i.split()
+            if f[0] == "par" and len(f) == 7 and g[0] == "rest":
+                par["release=%s" % {"0": "channel", "1": "write-lock", "2": "read-lock"}.get(f[5], f[5])] += 1
+                par["with-concurrent-checks" if f[6] != "0" else "failures-only"] += 1
+                par["blocked-after" if g[3] == "1" else ("refused-before" if g[1] == "0" and f[4] != "0" else "open-after")] += 1
+    return dict(verdicts=_verdict_stats(cases, model), ops=dict(ops), impl_outcomes=dict(kinds), par=dict(par),
                 distinct_delays=len(delays), max_case_len=max(lens or [0]),
                 mean_case_len=round(sum(lens) / max(1, len(lens)), 1))
 
 
 def c17_nontrivial(c, ms):
     impl = c.get("impl") or []
-    return any(i == "refused" for i in impl) or sum(1 for i in impl if i.startswith("delayed")) >= 3
+    return (any(i == "refused" for i in impl) or sum(1 for i in impl if i.startswith("delayed")) >= 3
+            or any(i.startswith("rest ") and int(i.split()[1]) >= 2 for i in impl))
 
 
 CONFIG = dict(
@@ -42,14 +51,23 @@ CONFIG = dict(
         stats=c17_stats,
         nontrivial=c17_nontrivial,
         rule="PRNG timelines of attempts (address pool of v4/v6-same-/64/v6-other/mapped/invalid strings x 3 actions, "
-             "bursts, gaps around 30 min and 12 h, cleanups, occasional non-monotone clock and two-phase check/throttle) "
-             "plus all address pairs for key sharing; a case is non-trivial if the real throttler refused at least once "
-             "or delayed at least three times; distinct = distinct op lists",
+             "bursts, gaps around 30 min and 12 h, cleanups, occasional non-monotone clock and two-phase check/throttle, "
+             "'par' steps: n goroutines record failures of one address/kind at once, optionally with concurrent checks, "
+             "released by a channel or piled up at the throttler's mutex held by the harness, observed at rest: records, "
+             "blocked, sorted delays), scripted openings k sequential + n concurrent failures around the threshold of ten "
+             "with random tails, plus all address pairs for key sharing; a case is non-trivial if the real throttler "
+             "refused at least once, delayed at least three times or recorded at least two concurrent failures; "
+             "distinct = distinct op lists",
         trusted_base=["net.ParseIP / IP.To4 / IP.To16 (address classification done by the harness with the standard library)",
                       "time.Time arithmetic modelled as unbounded Int nanoseconds (no saturation)"],
-        assumptions=["whole calls of CheckBruteforce/throttle/cleanup are atomic (each holds the mutex for its map access); "
-                     "the stale write-back inside CheckBruteforce under real concurrency is modelled only as the proved "
-                     "witness C17_concurrent_lost_update (property part 'including concurrent attempts' is partial)",
+        assumptions=["critical sections of one sync.RWMutex are atomic with respect to each other (read-locked sections only "
+                     "read); which accesses lie in which section is regenerated from the source (C17_atomicity_facts): "
+                     "addEntry/throttle, cleanup, setEntries, getEntries are one section each, so every interleaving of "
+                     "concurrent failures equals a sequential order (C17_concurrent_failures_all_recorded)",
+                     "CheckBruteforce is two sections (read, later write-back of the pruned list): a failure recorded in "
+                     "between is lost iff the list read began with a record older than 12 h (C17_stale_writeback_harmless, "
+                     "witness C17_concurrent_lost_update) - property part 'including concurrent attempts' is partial for "
+                     "that window only",
                      "C17_block_iff_window assumes a monotone clock and check+throttle not separated by another attempt of the same key/action"],
     )
 
@@ -58,10 +76,15 @@ MANIFEST = dict(
              "operators regenerated from the source: delay monotone and <= 25 s for every count incl. the 64-bit "
              "computation; for every history of whole attempts under a monotone clock the outcomes equal a counting "
              "spec that never forgets (refused iff >= 10 failures within 30 min; delay = f(#failures within 12 h)); "
-             "independence of keys/actions for every op sequence; forgetting after 12 h. Tied to the code by facts "
-             "extraction plus a differential run of the real memoryThrottler with injected clock.",
-        note="Trusted: Lean kernel, extractor, harness/comparison, net.ParseIP; unbounded-Int time. Concurrent "
-             "stale write-back inside CheckBruteforce is only exhibited as a proved witness (partial).",
-        technique="Lean 4 proof (refinement of the entry-list model to a counting spec by induction over op lists) + "
-                  "regenerated constants + differential correspondence",
+             "independence of keys/actions for every op sequence; forgetting after 12 h; every interleaving of the "
+             "critical sections of n concurrent failure recordings yields n records (sections regenerated from the "
+             "source per control-flow path). Tied to the code by facts extraction (constants, operators, lock "
+             "sections, write-back guard) plus a differential run of the real memoryThrottler with injected clock, "
+             "including goroutines recording failures at once, compared at rest.",
+        note="Trusted: Lean kernel, extractor, harness/comparison, net.ParseIP; unbounded-Int time; mutex sections atomic. "
+             "The stale write-back inside CheckBruteforce (needs a record older than 12 h at the head of the list "
+             "read) is delimited by a theorem and exhibited as a proved witness (partial).",
+        technique="Lean 4 proof (refinement of the entry-list model to a counting spec by induction over op lists; "
+                  "invariant over all schedules of the regenerated critical sections) + regenerated constants and "
+                  "lock sections + differential correspondence with concurrent steps",
     )
